@@ -28,9 +28,12 @@ import WcModel.Properties.C04
                                match is never accepted, under REALPATH or not;
     * `matchReal_real_nocap`   (C04 side clause) with FOLLOW, or when no inclusion regex has a
                                capture group, REALPATH matching = `lexists ∧ FullMatch …`;
-    * `fsGroups_first`, `real_link_rule_first`  (C06_real) the first non-empty `**` group: its
+    * `fsGroups_all`, `real_link_rule_all`  (C06_real) EVERY non-empty `**` group: its
                                body matches the captured segment in place, and none of the
-                               tested pieces under the path before the segment is a link;
+                               tested pieces under the path before the segment is a link
+                               (`fsGroups_first`, `real_link_rule_first`: the first such group —
+                               all that held before the G3 repair, when later groups were tested
+                               under the base the first one had left);
     * `C09_escape_path_globmatch_real`   `C09_escape_path_globmatch` extended to REALPATH:
                                `globmatch(name, escape(s), flags)` for every flag word in scope,
                                REALPATH included = `name ≠ "" ∧ lexists name ∧ PathLitEq s name'`.
@@ -43,7 +46,7 @@ open C09path
 
 theorem fsMatch_iff (fs : FS) (r : Re) (p : List Char) (follow : Bool) :
     fsMatch fs r p follow = true ↔
-      ∃ spans, r.fullmatchCap p = some spans ∧ (follow = true ∨ fsGroups fs p spans none = true) := by
+      ∃ spans, r.fullmatchCap p = some spans ∧ (follow = true ∨ fsGroups fs p spans = true) := by
   unfold fsMatch
   cases r.fullmatchCap p with
   | none => simp
@@ -66,7 +69,7 @@ theorem fsMatch_false_of_not_fullMatch (fs : FS) (r : Re) (p : List Char) (follo
 theorem fsMatch_run (fs : FS) (r : Re) (p : List Char) (follow : Bool) (hok : r.repOK = true)
     (h : fsMatch fs r p follow = true) :
     ∃ b cs, Re.MC ⟨false, false⟩ r 0 ⟨true, p⟩ [] ⟨b, []⟩ cs ∧
-      (follow = true ∨ fsGroups fs p (Re.spansOf r.ncaps p.length cs) none = true) := by
+      (follow = true ∨ fsGroups fs p (Re.spansOf r.ncaps p.length cs) = true) := by
   obtain ⟨spans, hs, hg⟩ := (fsMatch_iff fs r p follow).mp h
   obtain ⟨b, cs, m, rfl⟩ := Re.fullmatchCap_MC r p hok spans hs
   exact ⟨b, cs, m, hg⟩
@@ -393,16 +396,16 @@ theorem globmatch_real_exists (fs : FS) (o : MatchObj) (name : List Char) (hr : 
   | true => rfl
   | false => rw [matchReal_nonexistent fs o name hr hl] at h; cases h
 
-/-! ### C06_real: the link rule on the first non-empty `**` group -/
+/-! ### C06_real: the link rule on every non-empty `**` group -/
 
 /-- a group that did not participate, or captured the empty string, is skipped by `_fs_match` -/
 def emptyGroup (filename : List Char) : Option (Nat × Nat) → Bool
   | none => true
   | some (st, en) => ((filename.take en).drop st).isEmpty
 
-theorem fsGroups_skip (fs : FS) (filename : List Char) (rest : List (Option (Nat × Nat))) (base : Option (List Char)) :
+theorem fsGroups_skip (fs : FS) (filename : List Char) (rest : List (Option (Nat × Nat))) :
     ∀ pre : List (Option (Nat × Nat)), (∀ g ∈ pre, emptyGroup filename g = true) →
-      fsGroups fs filename (pre ++ rest) base = fsGroups fs filename rest base := by
+      fsGroups fs filename (pre ++ rest) = fsGroups fs filename rest := by
   intro pre
   induction pre with
   | nil => intro _; rfl
@@ -418,26 +421,87 @@ theorem fsGroups_skip (fs : FS) (filename : List Char) (rest : List (Option (Nat
       simp only [List.cons_append, fsGroups, hg, if_true]
       exact ih'
 
-/-- the first group that captured something: its pieces are link-tested under the path before it -/
-theorem fsGroups_first (fs : FS) (filename : List Char) (pre rest : List (Option (Nat × Nat))) (st en : Nat)
-    (hpre : ∀ g ∈ pre, emptyGroup filename g = true)
+/-- an accepted list of groups: every suffix of it is accepted (the loop keeps no state from one
+    group to the next — the G3 repair) -/
+theorem fsGroups_suffix (fs : FS) (filename : List Char) (rest : List (Option (Nat × Nat))) :
+    ∀ pre : List (Option (Nat × Nat)), fsGroups fs filename (pre ++ rest) = true →
+      fsGroups fs filename rest = true := by
+  intro pre
+  induction pre with
+  | nil => intro h; exact h
+  | cons g pre ih =>
+    intro h
+    cases g with
+    | none => simp only [List.cons_append, fsGroups] at h; exact ih h
+    | some se =>
+      obtain ⟨st, en⟩ := se
+      simp only [List.cons_append, fsGroups] at h
+      split at h
+      · exact ih h
+      · split at h
+        · exact ih h
+        · cases h
+
+/-- EVERY group that captured something: its pieces are link-tested under the path before it;
+    the group is "at the end" when it reaches the last character of the path or its very end -/
+theorem fsGroups_all (fs : FS) (filename : List Char) (pre rest : List (Option (Nat × Nat))) (st en : Nat)
     (hne : ((filename.take en).drop st).isEmpty = false)
-    (h : fsGroups fs filename (pre ++ some (st, en) :: rest) none = true) :
-    (fsPieces fs ((en : Int) == (filename.length : Int) - 1)
+    (h : fsGroups fs filename (pre ++ some (st, en) :: rest) = true) :
+    (fsPieces fs (decide ((en : Int) ≥ (filename.length : Int) - 1))
       (splitSlash (stripSlash ((filename.take en).drop st))) 1
       (splitSlash (stripSlash ((filename.take en).drop st))).length (filename.take st)).2 = true := by
-  rw [fsGroups_skip fs filename _ none pre hpre] at h
+  have h := fsGroups_suffix fs filename _ pre h
   simp only [fsGroups, hne, Bool.false_eq_true, if_false] at h
   split at h
   · rename_i hp; exact hp
   · cases h
 
-/-- **C06_real, with the capture matcher proved.**  If `_fs_match` accepts `p` for `r` without
-    FOLLOW, then for the first group `g` that captured a non-empty segment `p[st:en]`:
+/-- the first group that captured something (a case of `fsGroups_all`) -/
+theorem fsGroups_first (fs : FS) (filename : List Char) (pre rest : List (Option (Nat × Nat))) (st en : Nat)
+    (_hpre : ∀ g ∈ pre, emptyGroup filename g = true)
+    (hne : ((filename.take en).drop st).isEmpty = false)
+    (h : fsGroups fs filename (pre ++ some (st, en) :: rest) = true) :
+    (fsPieces fs (decide ((en : Int) ≥ (filename.length : Int) - 1))
+      (splitSlash (stripSlash ((filename.take en).drop st))) 1
+      (splitSlash (stripSlash ((filename.take en).drop st))).length (filename.take st)).2 = true :=
+  fsGroups_all fs filename pre rest st en hne h
+
+/-- **C06_real, with the capture matcher proved, for EVERY group.**  If `_fs_match` accepts `p`
+    for `r` without FOLLOW, then for every group `g` that captured a non-empty segment `p[st:en]`:
     (i) the body of group `g` matches that segment in place (declarative semantics), and
     (ii) none of the tested pieces of the segment, joined under `p[:st]`, is a symbolic link
-    (every piece; the last one is exempt when the segment reaches the last character of `p`).
-    (Later groups are tested under the base the first one left — KF-G3, `C04.G3_witness`.) -/
+    (every piece; the last one is exempt when the segment reaches the last character of `p` or
+    its very end).
+    (Before the G3 repair this held for the first such group only: later groups were tested
+    under the base the first one left — `C04.G3_fixed_witness`.) -/
+theorem real_link_rule_all (fs : FS) (r : Re) (p : List Char) (hok : r.repOK = true)
+    (h : fsMatch fs r p false = true) :
+    ∃ spans, r.fullmatchCap p = some spans ∧
+      ∀ (pre rest : List (Option (Nat × Nat))) (st en : Nat), spans = pre ++ some (st, en) :: rest →
+        ((p.take en).drop st).isEmpty = false →
+        (∃ md' r', r.groupAt ⟨false, false⟩ 0 (pre.length + 1) = some (md', r') ∧
+          Re.M md' r' ⟨decide (st = 0), p.drop st⟩ ⟨decide (en = 0), p.drop en⟩) ∧
+        ∀ k, k < (splitSlash (stripSlash ((p.take en).drop st))).length →
+          (!(decide ((en : Int) ≥ (p.length : Int) - 1)) ||
+            1 + k != (splitSlash (stripSlash ((p.take en).drop st))).length) = true →
+          fs.islink (((splitSlash (stripSlash ((p.take en).drop st))).take (k + 1)).foldl pjoin (p.take st)) = false := by
+  obtain ⟨spans, hs, hg⟩ := (fsMatch_iff fs r p false).mp h
+  have hg : fsGroups fs p spans = true := by
+    rcases hg with hg | hg
+    · cases hg
+    · exact hg
+  refine ⟨spans, hs, ?_⟩
+  intro pre rest st en he hne
+  subst he
+  refine ⟨?_, ?_⟩
+  · have := (Re.fullmatchCap_spans r p hok _ hs).2 pre.length st en (by simp)
+    obtain ⟨_, _, md', r', h1, h2⟩ := this
+    exact ⟨md', r', h1, h2⟩
+  · intro k hk hc
+    exact fsPieces_ok fs _ _ 1 _ _ (fsGroups_all fs p pre rest st en hne hg) k hk hc
+
+/-- the first non-empty group (the statement that held before the G3 repair; a case of
+    `real_link_rule_all`) -/
 theorem real_link_rule_first (fs : FS) (r : Re) (p : List Char) (hok : r.repOK = true)
     (h : fsMatch fs r p false = true) :
     ∃ spans, r.fullmatchCap p = some spans ∧
@@ -446,23 +510,11 @@ theorem real_link_rule_first (fs : FS) (r : Re) (p : List Char) (hok : r.repOK =
         (∃ md' r', r.groupAt ⟨false, false⟩ 0 (pre.length + 1) = some (md', r') ∧
           Re.M md' r' ⟨decide (st = 0), p.drop st⟩ ⟨decide (en = 0), p.drop en⟩) ∧
         ∀ k, k < (splitSlash (stripSlash ((p.take en).drop st))).length →
-          (!((en : Int) == (p.length : Int) - 1) ||
+          (!(decide ((en : Int) ≥ (p.length : Int) - 1)) ||
             1 + k != (splitSlash (stripSlash ((p.take en).drop st))).length) = true →
           fs.islink (((splitSlash (stripSlash ((p.take en).drop st))).take (k + 1)).foldl pjoin (p.take st)) = false := by
-  obtain ⟨spans, hs, hg⟩ := (fsMatch_iff fs r p false).mp h
-  have hg : fsGroups fs p spans none = true := by
-    rcases hg with hg | hg
-    · cases hg
-    · exact hg
-  refine ⟨spans, hs, ?_⟩
-  intro pre rest st en he hpre hne
-  subst he
-  refine ⟨?_, ?_⟩
-  · have := (Re.fullmatchCap_spans r p hok _ hs).2 pre.length st en (by simp)
-    obtain ⟨_, _, md', r', h1, h2⟩ := this
-    exact ⟨md', r', h1, h2⟩
-  · intro k hk hc
-    exact fsPieces_ok fs _ _ 1 _ _ (fsGroups_first fs p pre rest st en hpre hne hg) k hk hc
+  obtain ⟨spans, hs, hall⟩ := real_link_rule_all fs r p hok h
+  exact ⟨spans, hs, fun pre rest st en he _ hne => hall pre rest st en he hne⟩
 
 /-! ### C09 (c) extended to REALPATH -/
 
